@@ -9,7 +9,7 @@ CONSTANTS
  GridMargin = 2
  PairGrid = 4
  AnisoBases = {"tetra","prism","octa","hexprism","box"}
- AnisoFactors = {3, 10, 400, 10000}
+ AnisoFactors = {10, 400, 10000}
  AnisoBigFactors = {10, 400, 10000}
  AnisoPairs = TRUE
  AnisoRewind = TRUE
